@@ -212,7 +212,7 @@ class SdSimulation():
         :param runspecs: Dictionary setting startime, stoptime and dt
         :return: None
         """
-        self.mod.startime = starttime
+        self.mod.starttime = starttime
         self.mod.stoptime = stoptime
         self.mod.dt = dt
 
